@@ -251,10 +251,6 @@ func roundTrip(c *hc.Ctx) {
 		if len(a.Style.Dashes) == 0 && len(b.Style.Dashes) == 0 {
 			continue
 		}
-		if checkDashDomain(a.Style.Dashes, a.Style.DashOffset) {
-			c.Count("roundtrip-dash-skip:checkdash-domain")
-			continue
-		}
 		// effective dash lengths in units of the canvas width, compared as on/off function of arc length
 		eff := func(l RLayer, w float64) []float64 {
 			out := make([]float64, len(l.Style.Dashes))
